@@ -4,8 +4,122 @@ from classify_checks import *
 
 PID = "C09"
 THEOREMS = CLOSURE_THEOREMS + ["PauLie.C09.C09_name_dim", "PauLie.C09.mergeSummands_dim", "PauLie.Tie.census_tie",
-    "PauLie.C01Comp.C01Comp_subgraphs", "PauLie.C01Comp.C01_componentwise", "PauLie.C01Comp.C01_componentwise_typeA"]
-IMPORTS = CLOSURE_IMPORTS + ["PauLieVerif.Properties.C09", "PauLieVerif.Proofs.TieCensus", "PauLieVerif.Properties.C01Comp"]
+    "PauLie.C01Comp.C01Comp_subgraphs", "PauLie.C01Comp.C01_componentwise", "PauLie.C01Comp.C01_componentwise_typeA",
+    "PauLie.C09Cert.C09_cert_classify", "PauLie.C09Cert.C09_cert", "PauLie.C09Cert.C01_cert_dim", "PauLie.C09Cert.C09_cert_reply",
+    "PauLie.C09Cert.certComp_sound", "PauLie.C09Cert.certLegs_sound", "PauLie.C09Cert.transfer_card_ker"]
+IMPORTS = CLOSURE_IMPORTS + ["PauLieVerif.Properties.C09", "PauLieVerif.Proofs.TieCensus", "PauLieVerif.Properties.C01Comp",
+    "PauLieVerif.Properties.C09Cert"]
+
+# ---------------------------------------------------------------- the Lean-verified dimension certificate (any n)
+# `cert <G>` (Model/Cert.lean): `cert=ok ... dim=d` means Cert.certDim G = true, for which C09Cert.C09_cert proves that d is the
+# number of Pauli strings in the commutator closure of G - no enumeration, any number of qubits.  `cert=declined` claims nothing.
+KIND = {}          # protocol line -> generator kind (for the certified-fraction histogram)
+CERT = {}          # protocol line -> "ok:<cases>" | "declined:<reasons>"
+CERT_STATS = {}    # kind -> [certified, declined]
+CROSS = [0, 0, 0]   # n<=6: certified and compared with the enumeration, declined, disagreements
+
+def cert_of(lines):
+    outs = run_model(["cert " + l.split(" ", 1)[1] for l in lines])
+    res = []
+    for l, o in zip(lines, outs):
+        f = fields(o)
+        ok = f.get("cert") == "ok"
+        d = int(f["dim"]) if f.get("dim", "").isdigit() else None
+        CERT[l] = ("ok:" + ",".join(sorted(set(f.get("case", "-").split(","))))) if ok else \
+                  ("declined:" + ",".join(sorted(set(x.split(":")[0] for x in f.get("reason", o[:40]).split(",")))))
+        res.append((ok, d, o))
+    return res
+
+def cert_cross_check(lines, sizes):
+    """n<=6: wherever the certificate says ok its dimension must be the brute-force closure size (sizes: index -> size)"""
+    idx = sorted(sizes)
+    out = {}
+    for k, (ok, d, o) in zip(idx, cert_of([lines[k] for k in idx])):
+        CROSS[0 if ok else 1] += 1
+        if ok and d != sizes[k]:
+            CROSS[2] += 1
+            out[k] = f"CERTIFICATE-DISAGREEMENT: {o} but the commutator closure of {lines[k].split(' ', 1)[1]} has {sizes[k]} elements"
+    if len(idx) >= 50:
+        print(f"C09 certificate vs enumeration (n<=6): {CROSS[0]} certified inputs compared, {CROSS[2]} disagreements, {CROSS[1]} declined")
+    return out
+
+def cert_oracle(lines, outs):
+    """get_dla_dim() of the implementation against the certified closure size; a declined certificate is not a violation
+    (then only dimension == dimension of the reported name is checked); n<=6 additionally against the enumeration"""
+    res = [None] * len(lines)
+    certs = cert_of(lines)
+    algs = [fields(o).get("alg", "[]") if not o.startswith("!") else "[]" for o in outs]
+    algs = [a if a.startswith("[") else "[]" for a in algs]
+    inv_n = lean_invname(algs)
+    colls = [inputs_of(l) for l in lines]
+    small = [k for k in range(len(lines)) if (len(colls[k][0]) if colls[k] else 0) <= 6]
+    inv_c = dict(zip(small, lean_inv([colls[k] for k in small])))
+    for k, o in enumerate(outs):
+        f = fields(o)
+        ok, d, co = certs[k]
+        st = CERT_STATS.setdefault(KIND.get(lines[k], "other"), [0, 0])
+        st[0 if ok else 1] += 1
+        if o.startswith("!") or not f.get("dim", "!").isdigit():
+            res[k] = f"no dimension reported: {o[:120]}"
+            continue
+        dim = int(f["dim"])
+        if ok and d != dim:
+            res[k] = (f"get_dla_dim()={dim} but the commutator closure of {','.join(colls[k])[:200]} has {d} elements "
+                      f"(Lean-verified certificate {co.split(' dim=')[0]}, theorem C09Cert.C09_cert)")
+            continue
+        if inv_n[k] != "bad-op" and int(fields(inv_n[k])["size"]) != dim:
+            res[k] = f"get_dla_dim()={dim} but the algebra it names, {algs[k]}, has dimension {fields(inv_n[k])['size']}"
+            continue
+        if k in inv_c:
+            size = int(fields(inv_c[k])["size"])
+            if ok and d != size:
+                res[k] = f"CERTIFICATE-DISAGREEMENT: {co} but the commutator closure of {','.join(colls[k])} has {size} elements"
+            elif size != dim:
+                res[k] = f"get_dla_dim()={dim} but the commutator closure of {','.join(colls[k])} has {size} elements"
+    if len(lines) >= 50:
+        tot = [sum(v[0] for v in CERT_STATS.values()), sum(v[1] for v in CERT_STATS.values())]
+        print(f"C09 certificate: {tot[0]}/{tot[0] + tot[1]} inputs certified; per kind " +
+              " ".join(f"{k}={v[0]}/{v[0] + v[1]}" for k, v in sorted(CERT_STATS.items())))
+    return res
+
+CERT_KINDS = ["random", "sparse", "star", "star+", "star-dep", "clo-dep", "path", "commuting", "union", "2local", "chain+",
+              "eq-summands", "bstar"]
+
+def big_collection(rng, maxn, kind):
+    """shapes that only fit on many qubits: stars with many single legs (copy count 2^(k-1), k up to 12), B-type stars with up to
+    six single legs and five legs of length two (sp(32), su(128), so(256) names); shuffled / obfuscated by contractions"""
+    if kind == "wide-star":
+        singles = rng.randint(5, max(5, min(12, maxn - 4)))
+        legs = [1] * singles + ([rng.randint(2, max(2, min(6, maxn - 1 - singles)))] if rng.random() < 0.6 else [])
+        m, edges = G.star_edges(legs)
+        gs = G.realise(rng, m, edges)
+    else:
+        opts = [(k, t, r) for k in range(1, 7) for t in range(1, 6) for r in (0, 3, 4)
+                if (t >= 2 or r) and t + k + (2 if r else 0) <= maxn and (k >= 4 or t >= 4)]
+        k, t, r = rng.choice(opts)
+        gs = G.compact_bstar(rng, k, t, r)
+    if rng.random() < 0.6:
+        gs = G.obfuscate(rng, gs, rng.randint(1, 3 * len(gs)))
+    rng.shuffle(gs)
+    return gs
+
+def cert_lines(rng, tier):
+    th = tier == "thorough"
+    out = []
+    kinds = CERT_KINDS + ["wide-star", "big-bstar"]
+    for j in range(2700 if th else 540):
+        kind = kinds[j % len(kinds)]
+        maxn = rng.choice([8, 12, 16, 20, 24]) if th else rng.choice([7, 10, 13, 16])
+        if kind in ("wide-star", "big-bstar"):
+            maxn = max(maxn, 12)
+        gs = big_collection(rng, maxn, kind) if kind in ("wide-star", "big-bstar") else G.collection(rng, maxn, 24 if th else 20, kind)
+        l = G.line_of("classify", gs)
+        KIND[l] = kind
+        out.append(l)
+    return out
+
+def tag_cert(l, o):
+    return "cert:" + KIND.get(l, "other") + ":" + CERT.get(l, "?")
 
 def batch_oracle(lines, outs):
     colls = [inputs_of(l) for l in lines]
@@ -34,6 +148,10 @@ def batch_oracle(lines, outs):
             gs = O.pad(colls[k])
             if len(O.closure([O.enc(s) for s in gs])) != size:
                 res[k] = "ORACLE-DISAGREEMENT on closure size"
+    # the certificate against the enumeration, wherever both speak (n<=6)
+    sizes = {k: int(fields(inv_c[k])["size"]) for k in inv_c if res[k] is None}
+    for k, why in cert_cross_check(lines, sizes).items():
+        res[k] = why
     return res
 
 def build_streams(rng, tier):
@@ -47,22 +165,28 @@ def build_streams(rng, tier):
         Stream("exhaustive-small", exhaustive_small_lines(), h, **kw),
         Stream("structured+random", lines, h, **kw),
         Stream("name-consistency-any-n", big, h, **kw),
+        Stream("dimension-certified-at-any-n", cert_lines(rng, tier), h, **dict(kw, batch_oracle=cert_oracle, tag=tag_cert)),
         history_stream("C09", rng, tier),
         assembled_stream(lines[:500 if th else 120] + big[:200 if th else 50], **kw),
     ]
 
 RULE = ("same generator as C01 (n<=5, thorough 6) with closure size from the Lean-verified checker; a second stream on up to 10 (thorough 14) "
-        "qubits checks dimension == dimension of the reported name only. non-trivial: has dependents or several legs/components")
+        "qubits checks dimension == dimension of the reported name only; a third stream on up to 16 (thorough 24) qubits, all generator kinds, "
+        "compares get_dla_dim() with the closure size certified by the Lean-verified certificate `cert` (C09Cert.C09_cert: no enumeration, "
+        "any n); declined certificates are counted in the tags `cert:<kind>:declined:<reason>` and fall back to the name check; wherever "
+        "certificate and enumeration both speak (n<=6, all streams) they must agree. non-trivial: has dependents or several legs/components")
 
 def main(tier):
     return standard_main(PID, tier, "other", THEOREMS, IMPORTS, build_streams, rule=RULE,
-        assumptions=["closure size from closureList (proved to enumerate exactly the commutator closure, for all n); evaluated per input n<=6"])
+        assumptions=["closure size from closureList (proved to enumerate exactly the commutator closure, for all n); evaluated per input n<=6",
+                     "n>6: closure size from the certificate Cert.certDim (proved: C09Cert.C09_cert), evaluated per input; inputs on which the "
+                     "certificate declines (see tags cert:*:declined:*) are only checked for dimension == dimension of the reported name"])
 
 def replay(path):
     r = json.load(open(path)); line = r.get("line")
     sp = replay_special(PID, line, batch_oracle)
     if sp is not None:
         return sp
-    out = impl_classify.handle(line); why = batch_oracle([line], [out])[0]
+    out = impl_classify.handle(line); why = batch_oracle([line], [out])[0] or cert_oracle([line], [out])[0]
     print("line:", line); print("implementation:", out); print("model:", run_model([line])[0]); print("oracle:", why or "holds")
     return 1 if why else 0
